@@ -9,6 +9,7 @@ import (
 	"os"
 	"testing"
 
+	"github.com/c2FmZQ/ech"
 	"pgregory.net/rapid"
 
 	"verif/harness/ev"
@@ -559,6 +560,40 @@ func TestC02(t *testing.T) {
 		one("sub:aad_other_version", "the AAD used by the client differs in legacy_version", hello.Record(22, sc.RecVer, m4))
 		// after all those connections the same key material still accepts the authentic hello
 		checkAcceptedExact(t, "C02", sc, wire.New(sc.Record, io.EOF), keys)
+		// key rotation in place: the application keeps ONE key slice and ONE option built from it,
+		// serves a connection, then overwrites the slice's element with the new key. The server
+		// now holds the new key only: a payload for the new config that is encrypted to the
+		// retired public key is not acceptable, an honest one for the new key is
+		if rapid.IntRange(0, 3).Draw(t, "rotation_in_place") == 0 {
+			slice := []ech.Key{echKey(sc.Key)}
+			opt := ech.WithKeys(slice)
+			if c1, e := ech.NewConn(context.Background(), wire.New(sc.Record, io.EOF), opt); e != nil || !c1.ECHAccepted() {
+				ev.Violation(t, "C02", sc.replay(), "authentic hello not accepted before the rotation: %v", e)
+			}
+			nk := drawKey(t, "rotated_in", int(sc.Key.ID), sc.Key.PublicName)
+			nk, _ = hello.NewKey(nk.Priv.Bytes(), sc.Key.ID, sc.Key.PublicName, sc.Key.Suites)
+			slice[0] = echKey(nk)
+			mk := func(pub []byte) []byte {
+				sl, err := hello.NewSealer(nk.Config, pub, sc.Suite, nk.ID)
+				if err != nil {
+					t.Fatalf("harness: %v", err)
+				}
+				m, err := sl.SealOuter(sc.Tuple.Outer.Clone(), encoded, true)
+				if err != nil {
+					t.Fatalf("harness: %v", err)
+				}
+				return hello.Record(22, sc.RecVer, m)
+			}
+			stale := mk(sc.Key.Priv.PublicKey().Bytes())
+			rpr := map[string]any{"keys": keysReplay([]*hello.Key{nk}), "client_stream": hx(stale), "expect": "passthrough_exact", "note": "after a connection served by the same option when its slice held the retired key"}
+			if c2, e := ech.NewConn(context.Background(), wire.New(stale, io.EOF), opt); e == nil && c2.ECHAccepted() {
+				ev.Violation(t, "C02", rpr, "ECH accepted for a payload encrypted to the key that was rotated out of the server's key slice")
+			}
+			honest := mk(nk.Priv.PublicKey().Bytes())
+			if c3, e := ech.NewConn(context.Background(), wire.New(honest, io.EOF), opt); e != nil || !c3.ECHAccepted() {
+				ev.Violation(t, "C02", map[string]any{"keys": keysReplay([]*hello.Key{nk}), "client_stream": hx(honest), "expect": "accept_exact"}, "after the rotation a hello encrypted to the new key is not accepted: %v", e)
+			}
+		}
 		_ = bytes.Equal
 	})
 }
